@@ -1,6 +1,8 @@
 #include "dsplib/array.h"
 #include "dsplib/resample.h"
 
+#include <algorithm>
+
 namespace dsplib {
 
 FIRInterpolator::FIRInterpolator(int interp)
@@ -20,9 +22,9 @@ arr_real FIRInterpolator::process(const arr_real& in) {
     const int nd = d_.size();
 
     arr_real px(nd + nx);
-    std::memcpy(px.data(), d_.data(), nd * sizeof(real_t));
-    std::memcpy(px.data() + nd, in.data(), nx * sizeof(real_t));
-    std::memcpy(d_.data(), px.data() + nx, nd * sizeof(real_t));
+    std::copy(d_.begin(), d_.end(), px.begin());
+    std::copy(in.begin(), in.end(), px.begin() + nd);
+    std::copy(px.begin() + nx, px.end(), d_.begin());
 
     auto y = arr_real(nx * interp_);
     auto* py = y.data();
